@@ -377,6 +377,19 @@ func parent(id, tier string) int {
 	} else if len(missing) > 0 || m.Conclusive == 0 || m.Evaluations == 0 {
 		verdict = "inconclusive"
 		code = 2
+	} else if len(m.Inconclusive) > 0 {
+		// some batches were not judged: a panic of the harness itself is a defect of the machinery and
+		// never yields "held"; otherwise (watchdogs, refused preparations) a tenth of the batches is tolerated
+		panicked := false
+		for _, s := range m.Inconclusive {
+			if strings.Contains(s, "harness panic") {
+				panicked = true
+			}
+		}
+		if panicked || 10*len(m.Inconclusive) > n {
+			verdict = "inconclusive"
+			code = 2
+		}
 	}
 	for _, s := range m.Inconclusive {
 		fmt.Printf("INCONCLUSIVE: %s %s\n", id, s)
